@@ -66,7 +66,10 @@ Inductive sop :=
 | SList                              (* store.list() *)
 | SCleanup (active : list key)       (* store.cleanup(active) *)
 | SPack                              (* jug pack = store.update_pack() *)
-| SReopen.                           (* store.close(); a new store object on the same location *)
+| SReopen                            (* store.close(); a new store object on the same location *)
+| SPackCrash (n : nat).              (* `jug pack` dies inside update_pack(): the new pack file is in place, n of the
+                                        result files it replaces (in key order) are unlinked, the others still exist
+                                        - so their keys are in the pack AND files; then a new store object is opened *)
 
 Inductive sres :=
 | RUnit
@@ -92,6 +95,7 @@ Definition spec_step (s : smap) (op : sop) : smap * sres :=
                      RCount (length (akeep (fun k => negb (kmem k act)) s)))
   | SPack => (s, RUnit)
   | SReopen => (s, RUnit)
+  | SPackCrash _ => (s, RUnit)
   end.
 
 (* run a step function over an operation sequence, collecting the results *)
@@ -222,6 +226,15 @@ Definition f_pack (E : venv) (s : fstore) : fstore * nat :=
 Definition f_reopen (s : fstore) : fstore :=
   set_packed s (match f_packfile s with Some p => p | None => [] end).
 
+(* update_pack killed at its (n+1)-th os.unlink of a result file: the loop and resave_pack() are done, the
+   files are unlinked in the order of _iter_filekeys() (sorted); the next process opens the directory *)
+Definition f_pack_crash (E : venv) (s : fstore) (n : nat) : fstore :=
+  match f_pack_loop E (f_files s) s [] with
+  | (s1, rm) =>
+      let s2 := resave s1 in
+      f_reopen (set_files s2 (fold_left (fun fl k => aremove k fl) (firstn n (sort_keys rm)) (f_files s2)))
+  end.
+
 Definition fstep (E : venv) (s : fstore) (op : sop) : fstore * sres :=
   match op with
   | SDump k v => (f_dump E s k v, RUnit)
@@ -234,6 +247,7 @@ Definition fstep (E : venv) (s : fstore) (op : sop) : fstore * sres :=
   | SCleanup act => let '(s1, n) := f_cleanup s act in (s1, RCount n)
   | SPack => let '(s1, n) := f_pack E s in (s1, RCount n)
   | SReopen => (f_reopen s, RUnit)
+  | SPackCrash n => (f_pack_crash E s n, RUnit)
   end.
 
 (* ---- base_store.remove_many: call remove for every name, collect those that report True ----------- *)
@@ -280,6 +294,7 @@ Definition dstep (s : dstore) (op : sop) : dstore * sres :=
   | SCleanup act => let '(s1, n) := d_cleanup s act in (s1, RCount n)
   | SPack => (s, RUnit)                    (* `jug pack` refuses: no update_pack *)
   | SReopen => (d_reopen s, RUnit)
+  | SPackCrash _ => (s, RUnit)             (* nothing to interrupt: `jug pack` refuses before doing anything *)
   end.
 
 (* ---- redis_store ------------------------------------------------------------------------------------ *)
@@ -305,6 +320,7 @@ Definition rstep (s : rstore) (op : sop) : rstore * sres :=
   | SCleanup act => let '(s1, n) := r_cleanup s act in (s1, RCount n)
   | SPack => (s, RUnit)
   | SReopen => (s, RUnit)                  (* a new client of the same server *)
+  | SPackCrash _ => (s, RUnit)
   end.
 
 (* ---- helpers for the correspondence cases ------------------------------------------------------------ *)
